@@ -23,11 +23,11 @@ ASSUMPTIONS = [
 ]
 RULE = ("cases from props/C05.py gen(): random POMDPs S 1..6 (S>=3 in 80% of 'bel' cases), A 1..3, O 1..4, rejected when T and O are "
         "invariant under a non-identity state permutation or some T_a is symmetric; 3-6 beliefs per model (corners, faces, interior); "
-        "all (a,o) per case. Kinds: 'bel' (54%; all four library combinations Model/SparseModel<MDP::Model/SparseModel> and a user-defined model, built once; 18% of the dyadic ones get an exactly "
+        "all (a,o) per case. Kinds: 'bel' (48%; all four library combinations Model/SparseModel<MDP::Model/SparseModel>, a user-defined query-only model and two user-defined IsModelEigen models (matrices by value; column-major sparse), built once; 18% of the dyadic ones get an exactly "
         "constant observation column/table), 'tiny' bel cases (10%; some observation has probability 2^-21..2^-33), 'reset' (12%; eight "
         "construction/re-set paths), 'hist' (14%; operation history on one live dense and one live sparse object: constructor, then 2-4 "
         "setter calls with valid and clearly invalid tables through both overloads, belief updates judged after every call against the "
-        "tables of the last accepted calls), 'seq' (10%; filtering along 2-5 (a,o) pairs). non-trivial = S >= 3; distinct by md5 of the case line")
+        "tables of the last accepted calls), 'seq' (10%; filtering along 2-5 (a,o) pairs), 'conv' (6%; sparse models built by conversion from sources with sub-threshold observation tails). non-trivial = S >= 3; distinct by md5 of the case line")
 THOROUGH_SEEDS = 3
 SEARCH_SEEDS = 2
 CASE_TIMEOUT = 20
